@@ -351,9 +351,10 @@ class ExcelOpxWrapper(ExcelWrapper):
 
             if address.is_unbounded_range:
                 # bound the address range to the data in the spreadsheet
-                address = address & AddressRange(
-                    (1, 1, *self.max_col_row(sheet.title)),
-                    sheet=sheet.title)
+                used = (1, 1, *self.max_col_row(sheet.title))
+                # a used area of one cell is a cell, not a range
+                used_type = AddressCell if used == (1, 1, 1, 1) else AddressRange
+                address = address & used_type(used, sheet=sheet.title)
 
             cells = sheet[address.coordinate]
             cells_dataonly = sheet_dataonly[address.coordinate]
